@@ -7,7 +7,12 @@ package main
 //     on return, consults `loaded`, and marks a node loaded only after its
 //     dependencies; register rejects empty and duplicate names; buildNode
 //     consults and fills its memo and recurses into dependencies before the
-//     BUILD line; loadNodes and readBuildFile sort directories.
+//     BUILD line; loadNodes and readBuildFile sort directories;
+//   * the name that enters each rule type's digest (`makeDigest` in every
+//     `meta`): the model has no cache and treats every node as its own cache
+//     key, which is sound only if the digest covers the package-qualified
+//     node name (two rules with the same local name in different packages
+//     must not share an action digest).
 // Output: lean/PubModel/Gen/Caco3Loader.lean.
 
 import (
@@ -25,6 +30,7 @@ func init() {
 		{"caco3", "loadTracer", "push"}, {"caco3", "loadTracer", "pop"}, {"caco3", "", "readBuildFile"},
 		{"caco3", "", "newSubBuilds"}, {"caco3", "", "newBundle"}, {"caco3", "bundle", "meta"},
 		{"caco3", "Builder", "buildNode"}, {"caco3", "Builder", "buildNodes"}, {"caco3", "Builder", "Build"},
+		{"caco3", "fileSet", "meta"}, {"caco3", "", "makeDigest"}, {"caco3", "", "buildNodeDigest"},
 	}
 	register("Caco3Loader", genCaco3Loader)
 }
@@ -210,6 +216,33 @@ func genCaco3Loader(repo string, fs facts) (string, error) {
 		shape["depsBeforeBuild"] = d >= 0 && l > d
 	}
 
+	// the name argument of makeDigest in every meta method
+	fl := newFlow(p)
+	var digestNames [][3]string
+	for _, fd := range p.funcs() {
+		if fd.Name.Name != "meta" || fd.Recv == nil || fd.Body == nil {
+			continue
+		}
+		sc := fl.newScope(fd)
+		ast.Inspect(fd.Body, func(n ast.Node) bool {
+			call, ok := n.(*ast.CallExpr)
+			if !ok || p.src(call.Fun) != "makeDigest" || len(call.Args) != 3 {
+				return true
+			}
+			arg := p.src(call.Args[1])
+			cls := fl.classify(sc, call.Args[1], 0)
+			if arg == sc.recvVar+".name" && cls == clResolved {
+				cls = "qualified"
+			}
+			digestNames = append(digestNames, [3]string{recvName(fd), arg, cls})
+			return true
+		})
+	}
+	sort.Slice(digestNames, func(i, j int) bool { return digestNames[i][0] < digestNames[j][0] })
+	if len(digestNames) == 0 {
+		notes = append(notes, "no makeDigest call found in a meta method")
+	}
+
 	var keys []string
 	for _, k := range []string{"dedupDirs", "subDirsSorted", "registerBeforeSubDirs", "pushFirst", "popDeferred", "loadedConsulted",
 		"loadedAfterDeps", "pushRejectsOnStack", "popRemovesTop", "registerRejectsEmpty", "registerRejectsDup",
@@ -231,7 +264,17 @@ func genCaco3Loader(repo string, fs facts) (string, error) {
 	for _, k := range keys {
 		fmt.Fprintf(&b, "def %s : Bool := %v\n", k, shape[k])
 	}
+	b.WriteString("\n/-- rule type, name argument of makeDigest in its meta, class (\"qualified\" = the receiver's own\n    package-qualified node name, which flows from makeRelPath) -/\n")
+	b.WriteString("def digestNames : List (String × String × String) := [")
+	for i, d := range digestNames {
+		if i > 0 {
+			b.WriteString(", ")
+		}
+		fmt.Fprintf(&b, "(%s, %s, %s)", leanStr(d[0]), leanStr(d[1]), leanStr(d[2]))
+	}
+	b.WriteString("]\n")
 	b.WriteString("\nend PubModel.Gen.Caco3Loader\n")
+	fs["caco3_digest_names"] = digestNames
 	fs["caco3_rule_types"] = ruleTypes
 	fs["caco3_loader_shape"] = shape
 	if len(notes) > 0 {
